@@ -358,4 +358,126 @@ bool vf_scope(const std::string &name, Scope &s)
     return true;
 }
 
-int vf_custom(int, char **) { fprintf(stderr, "unknown engine\n"); return 2; }
+// ---------------------------------------------------------------- scale engine
+// `scale <kmax> <outdir>`: one heap grown element by element to 2^kmax + 1 elements, so a push is made at *every* size
+// below that, with a dip of three pops (and a get) at every power of two (sizes 2^k+1, 2^k, 2^k-1: the places where the
+// slot of the last element changes level), then drained completely, so a pop is made at every size as well. The slot
+// navigation works from the size alone; arithmetic that is right for small heaps (a float logarithm, a narrow
+// intermediate) goes wrong at one particular size far beyond what histories reach. Oracle: counts per priority
+// (1000 priorities, so ties are everywhere): every pop/get returns an element of the greatest priority present,
+// size() agrees, and the links form a complete left-filled tree in heap order at the top size.
+namespace {
+struct SElem { int prio; int in; struct cstl_heap_node hn; };
+int scale_cmp(const void *a, const void *b, void *p)
+{
+    CHECK_NOTHROW(p == &g_priv_token, "C07.cmp.priv", "compare function received a different priv pointer");
+    return ((const SElem *)a)->prio - ((const SElem *)b)->prio;
+}
+void scale_shape(struct cstl_bintree_node *root, size_t n)
+{
+    // iterative walk with explicit positions (a recursion would be fine too: depth <= 26)
+    std::vector<std::pair<struct cstl_bintree_node *, uint64_t>> st;
+    size_t count = 0;
+    if (root) { CHECK(root->p == nullptr, "C07.shape.parent", "root has a parent link"); st.push_back({root, 1}); }
+    while (!st.empty()) {
+        auto [b, pos] = st.back();
+        st.pop_back();
+        count++;
+        CHECK(count <= n, "C07.shape.count", "links reach more nodes than size() reports (%zu)", n);
+        CHECK(pos <= n, "C07.shape.complete", "node at position %llu in a heap of %zu: the tree is not complete/left-filled", (unsigned long long)pos, n);
+        SElem *e = (SElem *)((char *)b - offsetof(SElem, hn.bn));
+        for (int side = 0; side < 2; side++) {
+            struct cstl_bintree_node *c = side ? b->r : b->l;
+            if (!c) continue;
+            CHECK(c->p == b, "C07.shape.parent", "child's parent link does not point back at its parent");
+            SElem *ce = (SElem *)((char *)c - offsetof(SElem, hn.bn));
+            CHECK(e->prio >= ce->prio, "C07.shape.order", "parent p%d compares less than child p%d", e->prio, ce->prio);
+            st.push_back({c, pos * 2 + side});
+        }
+    }
+    CHECK(count == n, "C07.shape.count", "links reach %zu nodes, %zu elements are held", count, n);
+}
+int engine_scale(int kmax, const char *outdir)
+{
+    double t0 = now_s();
+    case_reset();
+    g_cur_op = "scale run";
+    const int K = 1000;
+    size_t top = ((size_t)1 << kmax) + 1;
+    SElem *pool = (SElem *)malloc((top + 3 * (size_t)kmax + 8) * sizeof(SElem));
+    if (!pool) { fprintf(stderr, "scale: no memory for %zu elements, skipped\n", top); return 0; }
+    std::vector<size_t> cnt(K, 0);
+    int maxp = -1;
+    size_t n = 0, next = 0;
+    uint64_t x = 88172645463325252ull, evals = 0, pops = 0, pushes = 0;
+    struct cstl_heap h;
+    memset(&h, 0xA5, sizeof h);
+    cstl_heap_init(&h, scale_cmp, &g_priv_token, offsetof(SElem, hn));
+    auto size_is = [&](const char *after) {
+        size_t sz;
+        LIB(sz = cstl_heap_size(&h));
+        CHECK(sz == n, "C07.size", "size %zu after %s, reference %zu", sz, after, n);
+    };
+    auto push = [&] {
+        x ^= x << 13; x ^= x >> 7; x ^= x << 17;
+        SElem *e = &pool[next++];
+        memset(e, 0x5a, sizeof *e);
+        e->prio = (int)(x % K);
+        e->in = 1;
+        LIB(cstl_heap_push(&h, e));
+        cnt[e->prio]++;
+        if (e->prio > maxp) maxp = e->prio;
+        n++; pushes++; evals++;
+    };
+    auto top_check = [&](const void *r, const char *what) {
+        CHECK((r != nullptr) == (n != 0), "C07.top.iff", "%s returned %s on a heap of %zu elements", what, r ? "an element" : "NULL", n);
+        if (!r) return;
+        const SElem *e = (const SElem *)r;
+        CHECK(e >= pool && e < pool + next && e->in == 1, "C07.top.member", "%s on a heap of %zu elements returned a pointer that is not an element in the heap", what, n);
+        CHECK(e->prio == maxp, "C07.top.max", "%s on a heap of %zu elements returned p%d but an element of p%d is in the heap", what, n, e->prio, maxp);
+    };
+    auto pop = [&] {
+        void *r;
+        LIB(r = cstl_heap_pop(&h));
+        top_check(r, "pop");
+        SElem *e = (SElem *)r;
+        e->in = 0;
+        cnt[e->prio]--;
+        while (maxp >= 0 && cnt[maxp] == 0) maxp--;
+        n--; pops++; evals++;
+    };
+    for (int k = 1; k <= kmax; k++) {
+        size_t hi = ((size_t)1 << k) + 1;
+        while (n < hi) push();
+        size_is("push");
+        for (int i = 0; i < 3; i++) { pop(); size_is("pop"); const void *g; LIB(g = cstl_heap_get(&h)); top_check(g, "get"); }
+    }
+    while (n < top) push();
+    size_is("push");
+    g_cur_op = "scale run: shape at the top size";
+    scale_shape(h.bt.root, n);
+    g_cur_op = "scale run: drain";
+    while (n) { pop(); if ((n & 0xfffff) == 0) size_is("pop"); }
+    void *r;
+    LIB(r = cstl_heap_pop(&h));
+    top_check(r, "pop");
+    free(pool);
+    FILE *f = fopen((std::string(outdir) + "/stats-scale-heap.json").c_str(), "w");
+    if (f) {
+        fprintf(f, "{\"engine\":\"heap-scale\",\"harness\":\"heap\",\"prop\":\"C07\",\"evaluations\":%llu,\"nontrivial\":%llu,"
+                   "\"distinct_nontrivial\":0,\"distinct_extra\":1,\"wall_s\":%.3f,\"counters\":{\"scale.pushes\":%llu,\"scale.pops\":%llu,\"scale.top_size\":%zu},\"samples\":["
+                   "{\"ops\":[\"push at every size below 2^%d+1 (1000 priorities), three pops and gets at every 2^k+1, shape walk at the top size, pop at every size down to empty\"],\"nontrivial\":true}],"
+                   "\"note\":\"one heap through every size up to 2^%d+1; counting oracle\"}\n",
+                (unsigned long long)evals, (unsigned long long)evals, now_s() - t0, (unsigned long long)pushes, (unsigned long long)pops, top, kmax, kmax);
+        fclose(f);
+    }
+    return 0;
+}
+} // namespace
+
+int vf_custom(int argc, char **argv)
+{
+    if (argc >= 3 && !strcmp(argv[0], "scale")) return engine_scale(atoi(argv[1]), argv[2]);
+    fprintf(stderr, "unknown engine\n");
+    return 2;
+}
